@@ -301,7 +301,7 @@ def klass(v):
 def run(ctx):
     violations = []
     notes = []
-    par = ctx.pick(4, 10)
+    par = ctx.pick(4, 8)
     rnd = random.Random(ctx.seed)
     P = paths(not ctx.quick)
     pcodes = [codes(p) for p in P]
